@@ -390,13 +390,15 @@ def generated_sources(chk, wd):
 def split_and_validate(module, pre, wd, tag, chunks=8):
     """split <pre>.0.ndjson into chunk files <pre>.part.<k>.ndjson and validate them in parallel"""
     src = pre + ".0.ndjson"
+    # TLC reads a whole chunk into memory (ndJsonDeserialize): keep every chunk below ~40 MB of JSON
+    chunks = max(chunks, -(-os.path.getsize(src) // (40 << 20)))
     outs = [open("%s.part.%d.ndjson" % (pre, k), "w") for k in range(chunks)]
     with open(src) as fh:
         for i, l in enumerate(fh):
             outs[i % chunks].write(l)
     for o in outs:
         o.close()
-    return validate_chunks(module, [], pre + ".part", chunks, os.path.join(wd, "v-%s-%s" % (module, tag)), maxpar=chunks)
+    return validate_chunks(module, [], pre + ".part", chunks, os.path.join(wd, "v-%s-%s" % (module, tag)), maxpar=8)
 
 
 def confirm(prop, tier, all_findings, wd):
